@@ -147,6 +147,11 @@ def partitions(tier, seed):
             parts.append(sp.S(P, "C08", k, n, budget=30 if quick else 150))
     for k in sp.prim_keys():
         parts.append(sp.S(P, "C08", k, T[k]["width"], budget=25))
+    from . import synth
+
+    for k in synth.keys():
+        for n in range(0, 9 if quick else 12):
+            parts.append(sp.S(P, "C08", k, n, budget=40 if quick else 200))
     G = sp.gen()
     ccs = sp.cc_list()
     if quick:
